@@ -3,7 +3,7 @@
    container comparisons (lex_lift = lex_lift_total_order) and through (key, value) pairs;
    Float_Cmp (sign of the rounded difference) against the IEEE comparison and the extended-real
    order, with Flocq; the induction over the value universe; the statements of Properties_C09.v.
-   Axioms: only those of Coq's classical real numbers (through Flocq), printed by Print Assumptions. *)
+   Assumptions: only those of the classical real numbers of Coq (through Flocq), as printed by Print Assumptions. *)
 From Coq Require Import List ZArith NArith Bool Lia Reals Lra.
 From Flocq Require Import Core IEEE754.BinarySingleNaN IEEE754.Bits Plus_error.
 From CelloV Require Import Generated Values.
